@@ -1,8 +1,18 @@
 (* C17 — set: JSON and YAML encodings of Set round-trip membership.
-   Property theorems only.  The element codec of encoding/json resp. yaml.v3 is a section
-   variable with the hypothesis that it round-trips a listing — that hypothesis IS library
-   behaviour (partial), validated per case by the correspondence run of ./check C17.        *)
-From Coq Require Import List Bool Permutation.
+   Property theorems only.
+
+   Two layers of assumptions, both Section hypotheses (never axioms):
+   * C17_roundtrip / C17_listing / C17_decode_keeps: the library's codec of a whole listing is a
+     section variable with the hypothesis that it round-trips a listing when decoding into a
+     fresh empty slice.
+   * C17_roundtrip_elem / C17_document: the sequence layer (null vs array framing, element-wise
+     decoding into fresh zero values) is a concrete Gallina model (SetCodecModel.ArrayLayer);
+     only the ELEMENT codec is assumed: an element decodes from its own encoding into a fresh
+     zero value to itself.
+   These hypotheses ARE library behaviour (partial), validated per case by the correspondence
+   run of ./check C17.  C17_reused_item_refuted records why "fresh" matters: a decoder that
+   streams the array into one reused variable breaks the round trip under the same hypothesis. *)
+From Coq Require Import List Bool Permutation ZArith.
 From GT Require Import SetModel SetProofs SetCodecModel SetCodecProofs.
 Import ListNotations.
 
@@ -12,9 +22,9 @@ Section C17.
   Hypothesis eqb_eq : forall x y, eqb x y = true <-> x = y.
   Variable doc : Type.
   Variable enc : option (list T) -> doc.
-  Variable dec : doc -> option (list T).
-  Hypothesis dec_enc : forall l, dec (enc (Some l)) = Some l.
-  Hypothesis dec_enc_nil : dec (enc None) = Some [].
+  Variable dec : doc -> list T -> option (list T).
+  Hypothesis dec_enc : forall l, dec (enc (Some l)) [] = Some l.
+  Hypothesis dec_enc_nil : dec (enc None) [] = Some [].
   Notation mem := (mem T).
   Notation wf := (wf T).
 
@@ -42,17 +52,73 @@ Section C17.
   Proof. exact (decode_keeps T eqb eqb_eq doc dec). Qed.
 End C17.
 
+Section C17_elem.
+  Variable T : Type.
+  Variable eqb : T -> T -> bool.
+  Hypothesis eqb_eq : forall x y, eqb x y = true <-> x = y.
+  Variable E : Type.
+  Variable zero : T.
+  Variable enc_elem : T -> E.
+  Variable dec_elem : E -> T -> option T.
+  Hypothesis elem_rt : forall x, dec_elem (enc_elem x) zero = Some x.
+  Notation mem := (mem T).
+  Notation wf := (wf T).
+
+  (* the round trip with the sequence layer inside the model: for both framings of the nil slice
+     (JSON null, YAML []) *)
+  Theorem C17_roundtrip_elem : forall (null_for_nil : bool) s t order,
+    wf s -> wf t -> Permutation (elems s) order ->
+    exists t', set_unmarshal eqb (arr_dec zero dec_elem) t
+                 (set_marshal (arr_enc enc_elem null_for_nil) order) = Some t'
+               /\ wf t' /\ forall x, mem t' x <-> mem t x \/ mem s x.
+  Proof. exact (roundtrip_elem T eqb eqb_eq E zero enc_elem dec_elem elem_rt). Qed.
+
+  (* the document is null only for the empty set (and only in the JSON framing); otherwise it is
+     the array of the members' encodings in listing order *)
+  Theorem C17_document : forall (null_for_nil : bool) order,
+    match set_marshal (arr_enc enc_elem null_for_nil) order with
+    | ANull => order = [] /\ null_for_nil = true
+    | AArr es => es = map enc_elem order
+    end.
+  Proof. exact (document_shape T E enc_elem). Qed.
+
+  (* reusing one variable is harmless exactly when element decoding ignores the old value *)
+  Theorem C17_reused_item_ok :
+    (forall e old, dec_elem e old = dec_elem e zero) ->
+    forall es item, dec_reused dec_elem es item = dec_into zero dec_elem es [].
+  Proof. exact (dec_reused_fresh T E zero dec_elem). Qed.
+End C17_elem.
+
+(* a merging element codec (omitted field keeps the old value) satisfies the element hypothesis,
+   yet a decoder streaming the array into ONE reused variable turns [(1,5);(2,0)] into
+   [(1,5);(2,5)]: the member (2,0) is lost and a foreign one appears *)
+Theorem C17_reused_item_refuted :
+  (forall x, mz_dec (mz_enc x) (0, 0)%Z = Some x) /\
+  arr_dec_reused (0, 0)%Z mz_dec (arr_enc mz_enc true (Some [(1, 5); (2, 0)]%Z)) []
+  = Some [(1, 5); (2, 5)]%Z.
+Proof. exact reused_refuted. Qed.
+
 (* non-vacuity: a codec satisfying the hypotheses exists (the identity codec on listings) and a
-   concrete round trip into a pre-filled target *)
-From Coq Require Import ZArith.
+   concrete round trip into a pre-filled target; the merging element codec satisfies the element
+   hypothesis and round-trips through the modelled sequence layer *)
 Example C17_example :
   let enc := fun (o : option (list Z)) => match o with Some l => l | None => [] end in
-  let dec := fun (d : list Z) => Some d in
-  (forall l, dec (enc (Some l)) = Some l) /\ dec (enc None) = Some [] /\
+  let dec := fun (d : list Z) (_ : list Z) => Some d in
+  (forall l, dec (enc (Some l)) [] = Some l) /\ dec (enc None) [] = Some [] /\
   option_map (@elems Z) (set_unmarshal Z.eqb dec (s_make Z.eqb [5; 1]%Z) (set_marshal enc [1; 2]%Z))
   = Some [5; 1; 2]%Z.
+Proof. repeat split. Qed.
+
+Example C17_example_elem :
+  arr_dec (0, 0)%Z mz_dec (arr_enc mz_enc true (Some [(1, 5); (2, 0)]%Z)) [] = Some [(1, 5); (2, 0)]%Z
+  /\ arr_dec (0, 0)%Z mz_dec (arr_enc mz_enc true None) [] = Some []
+  /\ arr_enc mz_enc false (@None (list (Z * Z))) = AArr [].
 Proof. repeat split. Qed.
 
 Print Assumptions C17_roundtrip.
 Print Assumptions C17_listing.
 Print Assumptions C17_decode_keeps.
+Print Assumptions C17_roundtrip_elem.
+Print Assumptions C17_document.
+Print Assumptions C17_reused_item_ok.
+Print Assumptions C17_reused_item_refuted.
